@@ -286,13 +286,14 @@ PROPS['C06'] = {
     'level': 'proof', 'claimed': True,
     'claim': 'unbounded proofs on the real code: RemoveTips calls removeTip exactly on the tips whose membership in the given name list differs from `revert` (names absent from the tree have no effect because the loop ranges over the tips), refuses a listed node that is not a tip, and rebuilds the tip-name index after the last removal and before the branch indexes, so look-ups by name reflect the pruned tip set; removeTip, when the inner node is left with two neighbours and is suppressed, gives the merging branch max(0,l1)+max(0,l2) exactly when either length is present (absent otherwise), the larger support only when both neighbours are inner nodes (absent otherwise), and when the suppressed node was the root the new root is the upper end of the merging branch; the degree-one chain loop keeps the invariants INV1, INV2, INV5, OWN, INVE; delNode kills exactly the given node and only its own branches lose their ends',
     'level_note': INVNOTE + '; preconditions: the tip hangs below its branch (its branch points to it); inside the chain loop the precondition of delNeighbor on the parent (the remaining branch of a degree-one inner node points to it) is unestablished and reported; INV3 (branch ends) is not carried through the chain loop (deletions need symmetric adjacency); induced-subtree consequences (splits are the restrictions, path lengths unchanged) follow per removed tip from graph lemmas L5/L3 (A-GRAPH)',
-    'packages': ['./tree', './hashmap'],
+    'packages': ALLPK,
     'functions': [('(*tree.Tree).removeTip', {'match': [r'^return', r'^post', r'^inv', r'^nil', r'^bounds', r'^pre\.\(\*tree\.Tree\)', r'^pre\.\(\*tree\.Node\)\.delNeighbor\.0$', r'^pre\.\(\*tree\.Node\)\.delNeighbor\.0\[[2-9]\]']}),
                   ('(*tree.Tree).RemoveTips', {'match': [r'^callsite', r'^post', r'^inv', r'^nil', r'^bounds']}),
-                  '(*tree.Tree).delNode', '(*tree.Node).delNeighbor', '(*tree.Node).NodeIndex'],
+                  '(*tree.Tree).delNode', '(*tree.Node).delNeighbor', '(*tree.Node).NodeIndex',
+                  ('cmd.specificTips', {'match': [r'^inv', r'^step', r'^return']}), ('cmd.pruneCmd.RunE', {'match': [r'^callsite', r'^pre\.\(\*tree']})],
     'trusted_base': TB_COMMON,
     'assumptions': A_COMMON,
-    'not_decided': ['induced-subtree theorem as a whole (A-GRAPH)', 'cmd/prune.go specificTips'],
+    'not_decided': ['induced-subtree theorem as a whole (A-GRAPH)', 'cmd/prune.go: that Nodes() lists every node (completeness of specificTips over the whole tree)'],
 }
 
 PROPS['C03'] = {
